@@ -32,6 +32,15 @@ def pIntervals (ts : List String) : Option (List Interval) :=
   | some (is, []) => some is
   | _ => none
 
+/-- intervals without their comments (C02/C08 are about instants and kinds) -/
+def showIntervalsKinds (is : List Interval) : List String :=
+  toString is.length :: is.flatMap (fun i => [showInstant i.start, showInstant i.stop, kindTok i.kind])
+
+def modelIterKinds (ctx : Ctx) (e : Expr) (f t : Int) (cut : Option Nat) : List String :=
+  runM (match iterRangeNaive ctx e f t with
+    | .ok s => .ok (showIntervalsKinds (match cut with | some n => s.take n | none => s))
+    | .error p => .error p)
+
 def modelIter (ctx : Ctx) (e : Expr) (f t : Int) (cut : Option Nat) : List String :=
   runM (match iterRangeNaive ctx e f t with
     | .ok s => .ok (showIntervals (match cut with | some n => s.take n | none => s))
@@ -60,7 +69,8 @@ def handleC02 (args : List String) (ctx : Ctx) (e : Expr) (res : List String) : 
           let cut := mode == "cut"
           -- a cut stream is checked as the stream of the window that ends where it was cut
           let t' := if cut then (out.getLast?.map (·.stop)).getD t else t
-          let m := modelIter ctx e f t (if cut then some out.length else none)
+          let m := modelIterKinds ctx e f t (if cut then some out.length else none)
+          let r := showIntervalsKinds out
           match c02Structure f t' out with
           | some c => some s!"fail {c} model={joinSp m}"
           | none =>
@@ -204,7 +214,8 @@ def handleC08 (op : String) (args : List String) (ctx : Ctx) (e : Expr) (res : L
         match pIntervals r with
         | none => none
         | some out =>
-          let m := modelIter ctx e f t (if mode == "cut" then some out.length else none)
+          let m := modelIterKinds ctx e f t (if mode == "cut" then some out.length else none)
+          let r := showIntervalsKinds out
           let lim := min t instEnd
           if out.any (fun i => i.start < f) then some s!"fail starts-before-from model={joinSp m}"
           else if out.any (fun i => i.stop > lim) then some s!"fail ends-after-limit model={joinSp m}"
